@@ -59,3 +59,37 @@ def call(case):
                     bad.append(dict(cls=klass, method=method, calls='obj(x, 1.0); obj(x, 3.0)', second_result=np.asarray(second).tolist(),
                                     expected=want.tolist()))
     return dict(reproduced=bool(bad), failing=bad[:4], statement='Hessian of a quadratic is its matrix, exactly symmetric; Hessdiag its diagonal')
+
+
+@reg('C04.dconc')
+def dconc(case):
+    import numdifftools as nd
+    from ndvc.concrete import hessian_default_step_cases
+    cnt, bad = hessian_default_step_cases(nd)
+    return dict(reproduced=bool(bad), failing=bad[:3], cases=cnt, statement='Hessian / Hessdiag with the default step generators')
+
+
+@reg('C04.hrule')
+def hrule(case):
+    """the order the Richardson stage is told about is the order the Hessian difference quotient really has (1 for the one-sided
+    methods): a cubic is then reproduced exactly from 2..4 user-supplied steps of any size"""
+    import warnings
+    import numdifftools as nd
+    f = lambda x: x[0] ** 3 + 2 * x[0] ** 2 * x[1] - x[1] ** 3 + x[0] * x[1] + 0.5 * x[1] ** 2
+    H = lambda x: np.array([[6 * x[0] + 4 * x[1], 4 * x[0] + 1], [4 * x[0] + 1, -6 * x[1] + 1]])
+    x = np.array([0.7, -0.4])
+    bad = []
+    with warnings.catch_warnings():
+        warnings.simplefilter('ignore')
+        for method in ('forward', 'backward', 'central', 'central2'):
+            for ns in (2, 3, 4):
+                for bs in (0.1, 0.01):
+                    h = nd.Hessian(f, method=method, step=nd.MinStepGenerator(base_step=bs, num_steps=ns, step_ratio=2.0))(x)
+                    if not np.max(np.abs(h - H(x))) <= 1e-9:
+                        bad.append(dict(method=method, num_steps=ns, base_step=bs, got=np.asarray(h).tolist(), expected=H(x).tolist()))
+    if not bad:
+        for method in ('central', 'forward', 'complex'):
+            r = call(dict(klass='Hessian', method=method, d=3, order=2, variant='plain'))
+            if r.get('reproduced'):
+                return r
+    return dict(reproduced=bool(bad), failing=bad[:3], statement='Hessian of a cubic from a short user step sequence is exact (Richardson removes the O(h) / O(h^2) term of the quotient)')
